@@ -495,10 +495,16 @@ class Interp:
     def external(self, qual: str):
         if qual in self.natives:
             return self.natives[qual]
-        if self.registry is not None:
-            ci = self.registry.for_call(qual)
-            if ci is not None:
-                return NativeFn(lambda *a, **k: self.registry.apply_external(self, ci, a, k), qual)
+        if self.registry is not None and self.registry.by_target.get(qual):
+            # decided at call time: a local external contract applies only inside the contracts that ask for it (`uses`), and the
+            # value of an imported name may be resolved once per module and reused
+            def call_ext(*a, **k):
+                ci = self.registry.for_call(qual)
+                if ci is not None:
+                    return self.registry.apply_external(self, ci, a, k)
+                self.events.append(('ext', qual, tuple(a), dict(k)))
+                return Opaque(qual.rsplit('.', 1)[-1], a)
+            return NativeFn(call_ext, qual)
 
         short = qual.rsplit('.', 1)[-1]
         if qual in ('copy.deepcopy', 'copy.copy'):
@@ -1514,6 +1520,8 @@ class Interp:
         if isinstance(obj, SObj):
             if attr in obj.fields:
                 return obj.fields[attr]
+            if getattr(obj, 'cls_alt', None):
+                raise Unsupported(f'attribute {attr} of an object whose class is symbolic (only its fields are known)')
             m = obj.cls.find_method(attr)
             if m is not None:
                 if m.kind == 'property':
